@@ -18,6 +18,7 @@ import (
 	"net/http"
 	"net/url"
 	"os"
+	"path/filepath"
 	"sort"
 	"strconv"
 	"strings"
@@ -61,6 +62,8 @@ type Op struct {
 
 	Q *Query `json:"q,omitempty"` // search
 
+	Mode string `json:"mode,omitempty"` // fs_break: which storage fault
+
 	// hostile: raw parameter values.  If OlderRel is set, older_than is the
 	// timestamp of the OlderIdx-th known entry plus OlderDelta nanoseconds.
 	H          map[string]string `json:"h,omitempty"`
@@ -76,6 +79,12 @@ type Scenario struct {
 	Enabled bool `json:"enabled"`
 	Anon    bool `json:"anon"`
 	Ops     []Op `json:"ops"`
+
+	// IOFaults marks the fault-injecting configuration: only such a scenario
+	// holds fs_break / fs_heal operations (a storage fault that makes the
+	// memory-to-file flush fail until it is healed).  All other scenarios are
+	// judged without any allowance for lost batches.
+	IOFaults bool `json:"io_faults,omitempty"`
 
 	// Bulk > 0 selects the big-log profile: BulkOld entries for ads.example,
 	// then Bulk entries for b.test, all flushed; a search for the old ones must
@@ -205,13 +214,38 @@ func Gen(t *rapid.T, tier string) any {
 	if tier == "thorough" {
 		maxOps = 150
 	}
+	sc.IOFaults = rapid.IntRange(0, 3).Draw(t, "io_faults") == 0
+	fsDown := false
 	n := rapid.IntRange(5, maxOps).Draw(t, "n_ops")
 	var now, tickBase int64
 	const hour = int64(time.Hour)
 	budget := 40 * 24 * hour
 	for i := 0; i < n; i++ {
 		var op Op
-		switch k := rapid.IntRange(0, 99).Draw(t, "kind"); {
+		k := rapid.IntRange(0, 99).Draw(t, "kind")
+		if sc.IOFaults {
+			switch f := rapid.IntRange(0, 11).Draw(t, "fs_kind"); {
+			case f == 0:
+				// The storage fails, or comes back, at any point of the run.
+				if fsDown {
+					sc.Ops = append(sc.Ops, Op{K: "fs_heal"})
+				} else {
+					sc.Ops = append(sc.Ops, Op{K: "fs_break", Mode: rapid.SampledFrom(qlogsim.FSFaultModes).Draw(t, "fs_mode")})
+				}
+				fsDown = !fsDown
+				continue
+			case f < 4:
+				// Keep recording through the fault and after it.
+				k = 0
+			}
+			if fsDown && k >= 62 && k < 64 {
+				// A clear cannot reach the files of a broken store, and what
+				// becomes of them is not stated: the store is repaired first.
+				sc.Ops = append(sc.Ops, Op{K: "fs_heal"})
+				fsDown = false
+			}
+		}
+		switch {
 		case k < 46:
 			op = Op{K: "rec", Rec: genRec(t)}
 			now += op.Rec.GapNs
@@ -324,6 +358,21 @@ type model struct {
 	curObs        qlogsim.FileObs
 	rotObs        qlogsim.FileObs
 	nextID        int
+
+	// fault is the storage fault in force ("" = none).  While it is set the
+	// log files cannot be observed and a flush cannot write; see settle.
+	fault string
+	// lostBatch: a flush of this process failed with an I/O error.
+	lostBatch bool
+}
+
+func (m *model) inMem(e *ent) bool {
+	for _, x := range m.mem {
+		if x == e {
+			return true
+		}
+	}
+	return false
 }
 
 // all returns the entries newest first.
@@ -397,6 +446,10 @@ func (r *run) displayed(e *ent) string {
 // "tick" (a rotation), "clear", "none".
 func (r *run) observe(what string) error {
 	m := r.m
+	if m.fault != "" {
+		// The files are out of reach; see settle.
+		return nil
+	}
 	cur, rot := r.n.Observe(false), r.n.Observe(true)
 	defer func() { m.curObs, m.rotObs = cur, rot }()
 	pc, pr := m.curObs, m.rotObs
@@ -405,7 +458,7 @@ func (r *run) observe(what string) error {
 		return nil
 	case rot == pr && cur.Exists && (!pc.Exists || (cur.Ino == pc.Ino && cur.Size > pc.Size)):
 		// The current file grew (or appeared): a flush.
-		if what != "add" && what != "flush" {
+		if what != "add" && what != "flush" && what != "shutdown" {
 			return kernel.Violationf("file-unexpected-change", "querylog.json grew from %d to %d bytes during a %q step", pc.Size, cur.Size, what)
 		}
 		if len(m.mem) == 0 {
@@ -422,6 +475,10 @@ func (r *run) observe(what string) error {
 		m.cur = append(m.cur, m.mem...)
 		m.mem = nil
 		r.c.Probe("flush_observed")
+		if m.lostBatch && what == "add" {
+			m.lostBatch = false
+			r.c.Probe("flush_resumed_after_io_error")
+		}
 		return nil
 	case pc.Exists && !cur.Exists && rot.Exists && rot.Ino == pc.Ino && rot.Size == pc.Size:
 		// The current file became the rotated file.
@@ -439,6 +496,28 @@ func (r *run) observe(what string) error {
 		return nil
 	}
 	return kernel.Violationf("file-unexpected-change", "during a %q step the files went from current=%+v rotated=%+v to current=%+v rotated=%+v", what, pc, pr, cur, rot)
+}
+
+// settle reconciles the model after a step that may have flushed.  Without a
+// storage fault that is observe.  While a storage fault is in force the files
+// cannot be looked at and a flush cannot write: the only thing accepted then is
+// what the statement cannot forbid, namely that a flush which was attempted
+// (the memory buffer is empty afterwards) lost exactly the batch it had taken
+// out of memory.  Everything else — entries missing from memory without a
+// flush, entries recorded after the fault was healed — is judged as always.
+func (r *run) settle(what string) error {
+	m := r.m
+	if m.fault == "" {
+		return r.observe(what)
+	}
+	if len(m.mem) > 0 && r.n.MemLen() == 0 {
+		r.c.Eventf("  flush failed (storage fault %s): batch of %d entries lost", m.fault, len(m.mem))
+		m.mem = nil
+		m.lostBatch = true
+		r.c.Fault("flush_io_error")
+		r.c.Probe("failed_flush_by_" + what)
+	}
+	return nil
 }
 
 // checkTail checks that bytes [from,to) of the current file are exactly the
@@ -482,6 +561,11 @@ func (r *run) tick() error {
 	}
 	ivl := int64(m.conf.Interval)
 	r.n.Tick()
+	if m.fault != "" {
+		// The files are out of reach: nothing can be rotated, nothing is judged.
+		r.c.Probe("tick_during_storage_fault")
+		return nil
+	}
 	hadRot := len(m.rot)
 	before := len(m.cur)
 	if err := r.observe("tick"); err != nil {
@@ -593,7 +677,7 @@ func (r *run) record(rec *qlogsim.Rec) error {
 		r.c.Probe("recorded")
 		r.c.Eventf("  recorded #%d t=%s host=%s ip=%s", e.id, fmtT(e.ts), host, ip)
 	}
-	return r.observe("add")
+	return r.settle("add")
 }
 
 func apiErr(err error, class string) error {
@@ -670,6 +754,9 @@ func (r *run) fullCheck() error {
 		switch {
 		case g == nil && ign:
 			r.c.Probe("ignored_hidden")
+		case g == nil && m.fault != "" && !m.inMem(e):
+			// On a store that cannot be read at the moment.
+			r.c.Probe("file_entry_unreachable")
 		case g == nil:
 			return kernel.Violationf("entry-missing-"+m.where(e), "full scan: entry #%d (t=%s, host %s, in %s) is not returned; %d of %d entries returned", e.id, fmtT(e.ts), e.host, m.where(e), len(got), len(all))
 		case ign:
@@ -899,6 +986,9 @@ func (r *run) matches(e *ent, q *Query) tri {
 	if res != no && r.ignoredNow(e) {
 		res = open
 	}
+	if res != no && r.m.fault != "" && !r.m.inMem(e) {
+		res = open
+	}
 	return res
 }
 
@@ -1064,6 +1154,11 @@ func (r *run) search(q *Query) error {
 			}
 		}
 	}
+	if m.fault != "" {
+		// What a broken store still yields is not asserted, page by page
+		// either: the partition is checked on the entries in memory.
+		paged, scan = r.onlyMem(paged), r.onlyMem(scan)
+	}
 	if !sameSeq(paged, scan) {
 		what2 := fmt.Sprintf("%s: paging with limit=%d and the returned older_than cursor yields [%s], the complete scan [%s]", what, q.Page, ids(paged), ids(scan))
 		if cursorFromMemory && fileNewest != nil && sameSeq(paged, without(scan, fileNewest)) {
@@ -1101,11 +1196,24 @@ func (r *run) search(q *Query) error {
 		}
 		paged = append(paged, items...)
 	}
+	if m.fault != "" {
+		paged = r.onlyMem(paged)
+	}
 	if !sameSeq(paged, scan) {
 		return seqDiff("offset-paging", fmt.Sprintf("%s: paging with limit=%d and offset yields [%s], the complete scan [%s]", what, q.Page, ids(paged), ids(scan)), paged, scan)
 	}
 	r.c.Eventf("  search %s page=%d: %d match, %d open", what, q.Page, len(scan), nOpen)
 	return nil
+}
+
+func (r *run) onlyMem(l []*ent) []*ent {
+	out := make([]*ent, 0, len(l))
+	for _, e := range l {
+		if r.m.inMem(e) {
+			out = append(out, e)
+		}
+	}
+	return out
 }
 
 func seqDiff(prefix, msg string, paged, scan []*ent) error {
@@ -1225,12 +1333,45 @@ func (r *run) apply(op *Op) error {
 	case "flush":
 		err := n.Flush()
 		kernel.Wait()
-		if err != nil && len(m.mem) > 0 {
+		if err != nil && len(m.mem) > 0 && m.fault == "" {
 			return kernel.Violationf("flush-error", "flush of %d entries: %v", len(m.mem), err)
 		}
 		r.c.Probe("explicit_flush")
-		return r.observe("flush")
-	case "rec_clear":
+		return r.settle("flush")
+	case "fs_break":
+		if m.fault != "" {
+			return fmt.Errorf("harness: storage fault %q injected while %q is in force", op.Mode, m.fault)
+		}
+		if err := n.BreakFS(op.Mode); err != nil {
+			return err
+		}
+		m.fault = op.Mode
+		if op.Mode == qlogsim.FSWiped {
+			// The files were deleted with their directory.
+			r.c.Eventf("  storage wiped: %d + %d entries in the files deleted", len(m.cur), len(m.rot))
+			m.cur, m.rot = nil, nil
+			m.curObs, m.rotObs = qlogsim.FileObs{}, qlogsim.FileObs{}
+		}
+		r.c.Fault("storage_" + op.Mode)
+		return nil
+	case "fs_heal":
+		if m.fault == "" {
+			return fmt.Errorf("harness: fs_heal without a storage fault")
+		}
+		if err := n.HealFS(m.fault); err != nil {
+			return err
+		}
+		m.fault = ""
+		r.c.Probe("storage_healed")
+		// The store is back as it was left.
+		return r.observe("none")
+	case "rec_clear", "clear":
+		if m.fault != "" {
+			return fmt.Errorf("harness: clear generated while a storage fault is in force")
+		}
+		if op.K == "clear" {
+			return r.clear()
+		}
 		// A record whose Add may have started the memory-to-disk flush,
 		// followed at once — without waiting for that goroutine — by a clear.
 		// Whatever the order of the two, the log is empty afterwards and later
@@ -1256,17 +1397,6 @@ func (r *run) apply(op *Op) error {
 		m.mem, m.cur, m.rot = nil, nil, nil
 		r.c.Fault("clear")
 		r.c.Probe("clear_overlapping_pending_flush")
-		return r.observe("clear")
-	case "clear":
-		code, body, err := n.Mux.Do(http.MethodPost, "/control/querylog_clear", nil)
-		if err != nil {
-			return apiErr(err, "api-panic")
-		}
-		if code != http.StatusOK {
-			return kernel.Violationf("api-status", "POST querylog_clear -> %d %s", code, body)
-		}
-		m.mem, m.cur, m.rot = nil, nil, nil
-		r.c.Fault("clear")
 		return r.observe("clear")
 	case "conf":
 		ign := op.Ign
@@ -1308,10 +1438,21 @@ func (r *run) apply(op *Op) error {
 	case "restart":
 		err := n.Shutdown()
 		kernel.Wait()
+		if m.fault != "" {
+			// The final flush had nowhere to write to.
+			if err = r.settle("shutdown"); err != nil {
+				return err
+			}
+			// The process ends: what was not written is gone.
+			m.mem = nil
+			r.c.Probe("shutdown_during_storage_fault")
+			r.c.Fault("clean_restart")
+			return r.reopen(op.Mem)
+		}
 		if err != nil && len(m.mem) > 0 {
 			return kernel.Violationf("shutdown-error", "Shutdown with %d entries in memory: %v", len(m.mem), err)
 		}
-		if err = r.observe("flush"); err != nil {
+		if err = r.observe("shutdown"); err != nil {
 			return err
 		}
 		if len(m.mem) > 0 {
@@ -1338,6 +1479,20 @@ func (r *run) apply(op *Op) error {
 		return r.hostile(op)
 	}
 	return fmt.Errorf("harness: unknown op %q", op.K)
+}
+
+func (r *run) clear() error {
+	m := r.m
+	code, body, err := r.n.Mux.Do(http.MethodPost, "/control/querylog_clear", nil)
+	if err != nil {
+		return apiErr(err, "api-panic")
+	}
+	if code != http.StatusOK {
+		return kernel.Violationf("api-status", "POST querylog_clear -> %d %s", code, body)
+	}
+	m.mem, m.cur, m.rot = nil, nil, nil
+	r.c.Fault("clear")
+	return r.observe("clear")
 }
 
 // bulk is the big-log profile: the matching entries lie behind more
@@ -1426,6 +1581,7 @@ func (r *run) reopen(mem int) error {
 		r.c.Fault("memsize_change")
 	}
 	m := r.m
+	m.lostBatch = false
 	if conf.Enabled != m.conf.Enabled || conf.Interval != m.conf.Interval || conf.Anonymize != m.conf.Anonymize || strings.Join(conf.Ignored, ",") != strings.Join(m.conf.Ignored, ",") {
 		return kernel.Violationf("config-not-persisted", "configuration handed to WriteDiskConfig %+v differs from the one set through the API %+v", conf, m.conf)
 	}
@@ -1441,7 +1597,10 @@ func Run(t *testing.T, scAny any, c *kernel.Ctx) error {
 	}
 	defer os.RemoveAll(dir)
 	return kernel.Bubble(t, func() error {
-		n := &qlogsim.Node{Dir: dir}
+		n := &qlogsim.Node{Dir: filepath.Join(dir, "data")}
+		if err := os.Mkdir(n.Dir, 0o755); err != nil {
+			return fmt.Errorf("harness: %w", err)
+		}
 		for i := range clientTable {
 			row := clientTable[i]
 			n.Clients = append(n.Clients, &row)
@@ -1489,7 +1648,7 @@ func Run(t *testing.T, scAny any, c *kernel.Ctx) error {
 var Prop = &kernel.Property{
 	ID:    "C07",
 	Level: "exploration",
-	Rule: "seeded histories (rapid) of record / clock advance (1 ns .. 400 h, aimed at the hourly rotation check and at whole multiples of the interval) / explicit flush / clear / configuration change (new and legacy API, ignore list, anonymisation) / clean restart / crash (with MemSize change) / filtered searches with cursor and offset paging / hostile parameter values, against the real querylog package on tmpfs under a fake clock; " +
+	Rule: "seeded histories (rapid) of record / clock advance (1 ns .. 400 h, aimed at the hourly rotation check and at whole multiples of the interval) / explicit flush / clear / configuration change (new and legacy API, ignore list, anonymisation) / clean restart / crash (with MemSize change) / in one scenario out of four: storage faults that make the memory-to-file flush fail until healed (data directory unreachable and back, data directory wiped and recreated, name of the log file taken by a directory, writes failing with ENOSPC), injected and healed at any point / filtered searches with cursor and offset paging / hostile parameter values, against the real querylog package on tmpfs under a fake clock; " +
 		"a case is non-trivial when >=1 entry reached a file through an observed flush and >=1 rotation, restart, crash, clear, configuration change or clock jump >= 1 h happened; distinct = distinct scenario digests",
 	Gen: Gen,
 	New: func() any { return &Scenario{} },
@@ -1509,9 +1668,12 @@ var Prop = &kernel.Property{
 		"a rotation at an age exactly equal to the interval is accepted either way",
 		"after a crash the entries that were only in memory are gone; everything flushed before must still be there",
 		"older_than values that are not the timestamp of an existing entry are only checked for no crash / no wrong entry",
+		"storage faults exist only in scenarios marked io_faults; while one is in force the entries of a batch that a flush took out of memory and could not write are gone, and entries in the files are not required to be returned (the files cannot be read); everything else, in particular every entry recorded after the fault was healed, is judged as in a fault-free run; no clear is issued while the store is broken (what becomes of the files is not stated)",
 	},
-	FaultKinds: []string{"clean_restart", "process_crash", "clock_jump", "clear", "config_change", "memsize_change", "client_ignore_toggle", "hostile_request"},
+	FaultKinds: []string{"clean_restart", "process_crash", "clock_jump", "clear", "config_change", "memsize_change", "client_ignore_toggle", "hostile_request",
+		"storage_away", "storage_wiped", "storage_isdir", "storage_full", "flush_io_error"},
 	ProbeNames: []string{"clear_overlapping_pending_flush", "recorded", "flush_observed", "explicit_flush", "rotation_observed", "rotation_dropped_old_file", "rotation_at_exact_age", "entries_in_all_three_places",
 		"cursor_memory_to_file", "cursor_file_to_rotated", "page_ends_at_memory_boundary", "page_ends_at_file_boundary", "search_checked", "search_nonempty", "search_open_entries", "idn_search",
-		"ignored_hidden", "not_logged_ignored", "not_logged_disabled", "crash_lost_memory_entries", "legacy_conf_rejected", "hostile_rejected_4xx", "hostile_answered_200", "older_than_absent_incomplete", "scan_limit_continuation"},
+		"ignored_hidden", "not_logged_ignored", "not_logged_disabled", "crash_lost_memory_entries", "legacy_conf_rejected", "hostile_rejected_4xx", "hostile_answered_200", "older_than_absent_incomplete", "scan_limit_continuation",
+		"storage_healed", "failed_flush_by_add", "failed_flush_by_flush", "failed_flush_by_shutdown", "flush_resumed_after_io_error", "file_entry_unreachable", "tick_during_storage_fault", "shutdown_during_storage_fault"},
 }
